@@ -464,13 +464,13 @@ def oniom_cases_of_shard(sh):
     geometry = sh["geometry"]
     base = {"kind": "oniom", "gname": sh["gname"], "geometry": geometry, "selection": sh["selection"], "low": sh["low"],
             "high": sh["high"], "basis_low": "sto-3g", "basis_high": sh.get("basis_high", "sto-3g")}
-    sp = sh["species"]
-    if sp is None:
-        yield dict(base, link=None)
-        return
-    st, lv = pick_link(geometry, model_indices(sh["selection"]))
-    for f in FACTORS:
-        yield dict(base, link={"staying": st, "leaving": lv, "species": sp, "factor": f})
+    for sp in sh["species_list"]:
+        if sp is None:
+            yield dict(base, link=None)
+            continue
+        st, lv = pick_link(geometry, model_indices(sh["selection"]))
+        for f in sh.get("factors", {}).get(sp, FACTORS):
+            yield dict(base, link={"staying": st, "leaving": lv, "species": sp, "factor": f})
 
 
 # ---------------------------------------------------------------------------------------------------------------------
@@ -636,7 +636,8 @@ def judge_dmet(case, r, acc, exact_cache):
         acc.count("dmet_simulate_raised")
         acc.violation(f"DMET.simulate/exception/{kind}:{r['err_type']}", case,
                       {"err": r["err"], "mismatch_evaluations": r.get("rec"), "tlists": r["tlists"],
-                       "E(mu=0)": r["E0"], "exact": exact}, group="DMET.simulate/exception")
+                       "E(mu=0)": r["E0"], "exact": exact},
+                      group="DMET.simulate/exception" + (f"({kind})" if const else ""))
         return None
     # electron count at convergence
     acc.ev()
@@ -847,21 +848,22 @@ def shards(tier, seed):
     gl = ["H4c", "H2O", "HFHF"] + (["C2H6"] if tier == "thorough" else [])
     for gname in gl:
         sels, whole = oniom_selections(gname, tier)
+        # quick tier: the full link x factor product on the H4 chain; on H2O / HF dimer the F and CH3 caps are run through
+        # the energy identities at factor 0.709 only (all factors are placed and checked geometrically in the relink family)
+        fac = {"F": [0.709], "CH3": [0.709]} if (tier == "quick" and gname != "H4c") else {}
         for low, high in SOLVER_PAIRS:
             for sel in sels:
-                for sp in LINK_SPECIES:
-                    sh.append({"kind": "oniom", "gname": gname, "geometry": geos[gname], "selection": sel, "low": low,
-                               "high": high, "species": sp})
+                sh.append({"kind": "oniom", "gname": gname, "geometry": geos[gname], "selection": sel, "low": low,
+                           "high": high, "species_list": LINK_SPECIES, "factors": fac})
             for sel in whole:
                 sh.append({"kind": "oniom", "gname": gname, "geometry": geos[gname], "selection": sel, "low": low,
-                           "high": high, "species": None})
+                           "high": high, "species_list": [None]})
     if tier == "thorough":   # a larger basis for the high level (no identical-level oracle; defining formula only)
         sels, whole = oniom_selections("H4c", tier)
         for low, high in SOLVER_PAIRS:
             for sel in sels + whole:
-                for sp in (LINK_SPECIES if sel in sels else [None]):
-                    sh.append({"kind": "oniom", "gname": "H4c", "geometry": geos["H4c"], "selection": sel, "low": low,
-                               "high": high, "species": sp, "basis_high": "3-21g"})
+                sh.append({"kind": "oniom", "gname": "H4c", "geometry": geos["H4c"], "selection": sel, "low": low,
+                           "high": high, "species_list": (LINK_SPECIES if sel in sels else [None]), "basis_high": "3-21g"})
     # --- DMET
     cat = dmet_catalogue(tier)
     for mname, m in cat.items():
@@ -873,8 +875,8 @@ def shards(tier, seed):
             for solver in m.get("solvers", ["fci", "ccsd"]):
                 for part in m["classes"]:
                     if tier == "thorough":
-                        vlevel = "all" if (solver == "fci" and n <= 4 and basis == "sto-3g") else "two"
-                        pmode = m["perms"]
+                        vlevel = "all" if (solver == "fci" and mname in ("H2", "H4c") and basis == "sto-3g") else "two"
+                        pmode = m["perms"] if (solver == "fci" or mname in ("H2", "H4c") or m["perms"] != "all") else "gen"
                     else:
                         vlevel = "two"
                         pmode = m["perms"] if solver == "fci" else "gen"
@@ -928,11 +930,12 @@ def run_shard(sh):
         ref = RefEnergies()
         for case in oniom_cases_of_shard(sh):
             run_oniom_case(case, acc, ref)
-            if case["link"] and case["link"]["factor"] == 0.709 and sh["high"] == "CCSD" and sh["species"] == "CH3":
+            if case["link"] and case["link"]["factor"] == 0.709 and sh["high"] == "CCSD" and case["link"]["species"] == "CH3":
                 acc.sample(case, cap=1)
     elif kind == "dmet":
         run_dmet_shard(sh, acc)
     acc.count(f"cpu_s_{kind}", round(time.process_time() - t0, 3))
+    acc.count(f"shards_{kind}")
     return acc
 
 
@@ -980,9 +983,10 @@ def bounds(tier, seed):
             "dmet_tier_rule": ("quick: 2 orderings of each fragment list; every atom permutation with fci fragments, the 4 generators "
                                "(identity, reversal, transposition, n-cycle) with ccsd"
                                if tier == "quick" else
-                               "thorough: every ordering of each fragment list x every permutation (fci, <= 4 atoms, sto-3g), 2 orderings "
-                               "x every permutation (ccsd), cyclic shifts + reflection for rings of 6/10, 3-21g with iao/meta_lowdin on the "
-                               "generators, vqe on H2 and H4 single-atom fragments"),
+                               "thorough: every ordering of each fragment list x every permutation (fci on H2 and the H4 chain), 2 orderings x "
+                               "every permutation (fci on the H4 rings, ccsd on H2 and the H4 chain), 2 orderings x the 4 generators (ccsd on "
+                               "the H4 rings; 3-21g with iao/meta_lowdin), cyclic shifts + reflection for rings of 6/10, vqe on H2 and on "
+                               "single-atom fragments of the H4 chain"),
             "mi": {"centres": list(range(1, (5 if tier == "thorough" else 4) + 1)),
                    "assignments": "every one-hot, every two-hot, 3 dense", "corrections": [False, True],
                    "overrides": "none, all, each single fragment"},
